@@ -3,6 +3,7 @@ CONSTANTS
   Kind = "p"
   MaxOps = 3
   Gen = FALSE
+  Tx = TRUE
   Alphabet = "large"
 VIEW AbstractView
 INVARIANTS IsMap QuerySound CandidatesSound NQUnique
